@@ -48,6 +48,10 @@ func main() {
 		checks.C09Worker(os.Args[3:])
 		return
 	}
+	if id == "C09-corpus" {
+		checks.C09Corpus(os.Args[3:])
+		return
+	}
 	if id == "C09-race" {
 		checks.C09Race(os.Args[3:])
 		return
